@@ -233,7 +233,12 @@ func TestC08(t *testing.T) {
 		},
 		Run:    runC08,
 		Shrink: shrinkKVCase,
-		Strip:  func(c KVCase) any { return struct{ K kit.Knobs; O []kit.Op }{c.Knobs, c.Ops} },
-		Rule:   "seeded single-writer programmes with explicit flushes (log rotation), automatic rotations, clean restarts and process crashes; after every acknowledged write the reported last sequence must exceed that of every earlier surviving write; at every open and at the end the stored log entries (file order) must have strictly increasing sequence groups; non-trivial = >=3 acknowledged steps and >=1 rotation/restart/crash",
+		Strip: func(c KVCase) any {
+			return struct {
+				K kit.Knobs
+				O []kit.Op
+			}{c.Knobs, c.Ops}
+		},
+		Rule: "seeded single-writer programmes with explicit flushes (log rotation), automatic rotations, clean restarts and process crashes; after every acknowledged write the reported last sequence must exceed that of every earlier surviving write; at every open and at the end the stored log entries (file order) must have strictly increasing sequence groups; non-trivial = >=3 acknowledged steps and >=1 rotation/restart/crash",
 	})
 }
